@@ -104,7 +104,7 @@ def _var_case(rng, cid):
     # the pattern the two repository fixtures do not have: remaining composite -> skipped composite -> skipped glyph, where
     # only the innermost one has an intermediate master
     chain = None
-    if rng.random() < 0.5:
+    if rng.random() < 0.4:
         chains = [(a, c1["b"], c2["b"]) for a in names for c1 in m0[a]["comps"] for c2 in m0[c1["b"]]["comps"]]
         if not chains and n >= 3:
             a, b, c = names[2], names[1], names[0]
@@ -117,7 +117,7 @@ def _var_case(rng, cid):
             chain = rng.choice(chains)
     m1 = {k: _perturb(rng, g) for k, g in m0.items()}
     sparse = {}
-    if chain or rng.random() < 0.8:
+    if chain or rng.random() < 0.6:
         pick = [k for k in names if rng.random() < 0.35] or [names[0]]
         if chain:
             pick = sorted((set(pick) - {chain[0], chain[1]}) | {chain[2]})
@@ -137,7 +137,20 @@ def _var_case(rng, cid):
     skip = sorted(skip)
     if len(skip) >= len(names):
         skip = skip[:-1]
-    return {"cid": cid, "var": True, "lib": rng.choice(["ufoLib2", "defcon"]), "flavor": rng.choice(["tt", "tt", "cff2"]),
+    flavor = rng.choice(["tt", "tt", "cff2"])
+    if not sparse:
+        # masters need not agree on HOW a glyph is built: the first-listed master draws as plain contours what the other one
+        # composes from a skipped glyph (CFF2, where every composite is decomposed anyway)
+        refs = [n_ for n_ in names if n_ not in skip and any(c["b"] in skip for c in m0[n_]["comps"])]
+        if refs:
+            flavor = "cff2"
+            n_ = rng.choice(refs)
+            which = m0 if rng.random() < 0.7 else m1
+            try:
+                which[n_] = compile_exec.resolved_form(which, n_)
+            except absfont.Inexact:
+                pass
+    return {"cid": cid, "var": True, "lib": rng.choice(["ufoLib2", "defcon"]), "flavor": flavor,
             "m0": m0, "m1": m1, "sparse": sparse, "skip": skip, "via": "dslib", "names": names}   # (the designspace functions take the list from the designspace lib only, as documented)
 
 
